@@ -748,7 +748,7 @@ theorem length_flatMap_map {α β γ : Type} (g : β → γ) (h : α → List β
   | x :: xs => by simp [List.flatMap_cons, length_flatMap_map g h xs]
 
 theorem filesOK_noDel (ops : List Op) (hv : ValidFrom [] ops) (hnd : NoDel ops)
-    (hcap : ∀ k, (blocksOfKey ops k).length ≤ 20) : FilesOK (runsOf' ops) := by
+    (hcap : ∀ k, (blocksOfKey ops k).length ≤ 20) : FilesOK (some 20) (runsOf' ops) := by
   have hch : ∀ f k, ChainOK (ptsOf f k ops) := fun f k => by
     have := valid_chain f k ops [] hv trivial
     simpa using this
@@ -786,7 +786,7 @@ theorem filesOK_noDel (ops : List Op) (hv : ValidFrom [] ops) (hnd : NoDel ops)
     exact fresh_mkB c1 c2 c3
   · intro k
     rw [blocksFor_noDel ops hnd, length_flatMap_map]
-    exact hcap k
+    intro m hm; cases hm; exact hcap k
 
 /-- **a compaction of the case, judged by the statement checker** -/
 theorem modelCompact_ok (ops : List Op) (hv : ValidFrom [] ops) (hnd : NoDel ops)
@@ -795,13 +795,14 @@ theorem modelCompact_ok (ops : List Op) (hv : ValidFrom [] ops) (hnd : NoDel ops
     (files : List OutFile) (h : modelCompact ops fast size = Obs.out files) :
     judge ops false size files = none := by
   unfold modelCompact at h
-  cases hc : compactSeq ⟨size, fast⟩ ((readers ops).map RFile.runs) with
+  cases hc : compactSeq { size := size, fast := fast } ((readers ops).map RFile.runs) with
   | error e => rw [hc] at h; cases h
   | ok seq =>
     rw [hc] at h
     simp only [Obs.out.injEq] at h
     subst h
-    have ro := compactSeq_spec ⟨size, fast⟩ hs (runsOf' ops) (filesOK_noDel ops hv hnd hcap) seq hc
+    have ro := compactSeq_spec { size := size, fast := fast } (some 20) (stableLaw size fast) hs (runsOf' ops)
+      (filesOK_noDel ops hv hnd hcap) seq hc
     obtain ⟨sf1, sf2⟩ := splitFiles_spec limits (fun _ => 0) (seqLen seq) seq (by simp [seqLen])
     apply judge_none ops false size _ sf2 (by rw [sf1]; exact ro.sorted)
       (fun k => blocksFor (runsOf' ops) k) (fun k => restAt (blocksFor (runsOf' ops) k))
